@@ -1,4 +1,5 @@
 """C07 -- Tensor iterators yield exactly the logical elements in order (DESIGN.md section 2, C07)."""
+import os
 import re
 import vf
 
@@ -53,7 +54,7 @@ def ragged_back(case):
     """input line of a chunk iterator over an axis that is not a multiple of the chunk size, with a
     history that consumes from the back -- exactly the complement of valid_case for KChunks."""
     f = case["input"].split(";")
-    if len(f) != 6 or f[0] not in ("chunks", "chunksmut"):
+    if len(f) != 6 or f[0] not in ("chunks", "chunksmut", "rchunks"):
         return False
     shape = [int(x) for x in f[2].split(",") if x.strip()]
     ab = [int(x) for x in f[4].split(",") if x.strip()]
@@ -62,11 +63,71 @@ def ragged_back(case):
     return shape[ab[0]] % ab[1] != 0 and bool(re.search(r"[br]", f[5]))
 
 
+def exec_cases(ctx, bindir, n):
+    """gen + exec.  Normally one harness process answers every input.  If that process dies
+    (abort / segfault inside the library, which catch_unwind cannot turn into an outcome) the
+    inputs are re-run in chunks, the inputs that kill the process are found by bisection and
+    reported (at most 3), and the chunks that still cannot be run are dropped."""
+    try:
+        return ctx.gen_exec(bindir, "c07", n, inputs=ctx.replay_inputs())
+    except vf.CheckerBroken as ex:
+        if "exec" not in str(ex):
+            raise
+    path = os.path.join(bindir, "c07")
+    inputs = ctx.replay_inputs()
+    if inputs is None:
+        rc, out = vf.sh([path, "gen", str(ctx.seed), str(n), ctx.tier], timeout=600)
+        inputs = [l for l in out.split("\n") if l.strip()]
+        corpus = os.path.join(vf.ROOT, "corpus", ctx.prop + ".txt")
+        if os.path.exists(corpus):
+            inputs = [l.rstrip("\n") for l in open(corpus) if l.strip() and not l.startswith("#")] + inputs
+
+    def run(lines):
+        rc, out = vf.sh([path, "exec"], input="\n".join(lines) + "\n", timeout=900)
+        if rc != 0:
+            return None
+        res = []
+        for l in out.split("\n"):
+            parts = l.split("\t")
+            if len(parts) == 3:
+                res.append({"tag": parts[0], "input": parts[1], "term": parts[2]})
+        return res if len(res) == len(lines) else None
+
+    cases, reported, dropped = [], 0, 0
+    for base in range(0, len(inputs), 500):
+        chunk = inputs[base:base + 500]
+        for _ in range(4):
+            res = run(chunk)
+            if res is not None:
+                cases += res
+                break
+            if reported >= 3:
+                dropped += len(chunk)
+                break
+            lo, hi = 0, len(chunk)          # invariant: chunk[lo:hi] kills the process
+            while hi - lo > 1:
+                mid = (lo + hi) // 2
+                if run(chunk[lo:mid]) is None:
+                    hi = mid
+                else:
+                    lo = mid
+            ctx.violation({"kind": "crash", "check": "iterators", "input": chunk[lo],
+                           "explain": "the harness process died (abort / segfault) while driving the real iterator on this "
+                                      "input: a safe iterator API misbehaved beyond a catchable panic"})
+            reported += 1
+            chunk = chunk[:lo] + chunk[lo + 1:]
+        else:
+            dropped += len(chunk)
+    if dropped:
+        ctx.notes.append("%d inputs could not be run because the harness process kept dying" % dropped)
+    return cases
+
+
 def main(ctx):
     ctx.rule = ("small-scope sweep: every op sequence of length <= 2 (quick) / 3 (thorough) over {next, next_back, nth 0/1/2} followed by each "
                 "of 8 terminals (drop, fold, rev-drain, rayon, 4 split trees) on 7 fixed layouts x {iter, iter_mut, lanes, axis_iter_mut, "
-                "axis_chunks, inner_iter}; plus seeded random cases: kind uniformly from 14 iterator kinds (mutable and immutable, "
-                "DynLayout and NdLayout), layout of rank 0..5 derived from a contiguous one by stepped slices / permutation / unit "
+                "axis_chunks, inner_iter}; plus seeded random cases: kind from 13 iterator kinds (mutable and immutable, "
+                "DynLayout and NdLayout, plus rten-base RangeChunks), layout of rank 0..5 derived from a contiguous one by stepped slices / permutation / unit "
                 "axes with arbitrary strides / broadcast axes (immutable only) / empty axes, history tree of up to 9 ops with splits "
                 "nested to depth 3, nth beyond the end, split_at 0 / len / len+1, usize::MAX; non-trivial = iterator of >= 2 items "
                 "and a non-empty history; distinct = distinct input line")
@@ -79,7 +140,7 @@ def main(ctx):
     ctx.audit(GROUP, "tensor")
     failed = ctx.prove(GROUP, "Props_C07", THEOREMS)
     bindir = ctx.harness(GROUP, profile="release", bins=["c07"], hooks=False)
-    cases = ctx.gen_exec(bindir, "c07", ctx.n(2500, 60000), inputs=ctx.replay_inputs())
+    cases = exec_cases(ctx, bindir, ctx.n(2500, 40000))
 
     # Known finding F22: only cases of the excluded class on which the implementation does what
     # the model says it does may be attributed to it; anything else stays a violation.
